@@ -515,10 +515,16 @@ def expr_slice(pid, cfg, tier, seed, workdir, rep, stats, findings):
         if len(samples) < 4 and len(toks) > 6:
             samples.append({"expression": text, "valuation": val["*"], "decision": dec})
     stats["_distinct"] = distinct
+    # guards inside running orders: re-evaluated against the values the engine holds then
+    if cfg.get("run_profiles"):
+        run_slice(pid, cfg, cfg["run_" + tier], seed, workdir, rep, stats, profiles=cfg["run_profiles"])
+        stats["_distinct"] = distinct | stats.get("_distinct", set()) if isinstance(stats.get("_distinct"), set) else distinct
     return samples
 
 
 def replay_expr(pid, cfg, payload, workdir):
+    if payload.get("kind") == "run":
+        return replay_run(pid, cfg, payload, workdir)
     r = expr_eval_one(pid, payload["text"], payload["tokens"], payload["val"], workdir)
     if r["dec"] is None:
         fails = r["note"].startswith("exception:") and not r["note"].endswith("ZeroDivisionError")
